@@ -7,36 +7,49 @@ import tempfile
 
 from . import checklib, tlc
 
-DEFS = ("Min(a, b)", "CeilDiv(a, b)", "NChunks(n, rpc)", "ChunkSize(n, rpc, i)", "SumFast(n, rpc, i)", "NormRpc(rpc, n)")
+MODULES = {
+    "ChunkProofs": ("Chunking", ("Min(a, b)", "CeilDiv(a, b)", "NChunks(n, rpc)", "ChunkSize(n, rpc, i)", "SumFast(n, rpc, i)", "NormRpc(rpc, n)"),
+                    "Cover, SumAll, SizesInRange, NormSame, RowInChunk for ALL n, rpc >= 1"),
+    "IndexProofs": ("PyIndex", ("Clamp(v, s, n)", "Count(lo, hi, s)"),
+                    "ClampRange, ProgPos, ProgNeg, CountBound: every position a slice selects lies on the axis, for ALL n, start, stop, step"),
+}
 
 
-def _defs(path):
+def _defs(path, names):
+    """definition texts (continuation lines included) with blanks normalised"""
     out = {}
-    for ln in open(path):
-        for d in DEFS:
+    lines = open(path).read().splitlines()
+    for i, ln in enumerate(lines):
+        for d in names:
             if ln.startswith(d) and "==" in ln:
-                out[d] = re.sub(r"\s+", " ", ln.split("\\*")[0]).strip()
+                txt = ln.split("\\*")[0]
+                j = i + 1
+                while j < len(lines) and lines[j].startswith("   ") and "==" not in lines[j].split("\\*")[0][:40].replace("<=", "").replace(">=", ""):
+                    txt += " " + lines[j].split("\\*")[0]
+                    j += 1
+                out[d] = re.sub(r"\s+", " ", txt).strip()
     return out
 
 
-def prove(chk):
-    """-> number of proof obligations discharged; the definitions proved about must be those of Chunking.tla"""
-    a, b = _defs(os.path.join(tlc.SPEC_DIR, "Chunking.tla")), _defs(os.path.join(tlc.SPEC_DIR, "ChunkProofs.tla"))
-    if a != b or len(a) != len(DEFS):
-        raise checklib.Machinery(f"ChunkProofs.tla does not repeat the definitions of Chunking.tla verbatim: {a} vs {b}")
+def prove(chk, module="ChunkProofs"):
+    """-> number of proof obligations discharged; the definitions proved about must be those of the TLC-checked module"""
+    ref, names, what = MODULES[module]
+    a, b = _defs(os.path.join(tlc.SPEC_DIR, ref + ".tla"), names), _defs(os.path.join(tlc.SPEC_DIR, module + ".tla"), names)
+    if a != b or len(a) != len(names):
+        raise checklib.Machinery(f"{module}.tla does not repeat the definitions of {ref}.tla verbatim: {a} vs {b}")
     d = tempfile.mkdtemp(prefix="tlaps_")
     try:
-        shutil.copy(os.path.join(tlc.SPEC_DIR, "ChunkProofs.tla"), d)
-        p = subprocess.run(["tlapm", "--cleanfp", "ChunkProofs.tla"], cwd=d, stdout=subprocess.PIPE, stderr=subprocess.STDOUT, text=True, timeout=1500)
+        shutil.copy(os.path.join(tlc.SPEC_DIR, module + ".tla"), d)
+        p = subprocess.run(["tlapm", "--cleanfp", module + ".tla"], cwd=d, stdout=subprocess.PIPE, stderr=subprocess.STDOUT, text=True, timeout=1500)
     finally:
         shutil.rmtree(d, ignore_errors=True)
     m = re.search(r"All (\d+) obligations proved", p.stdout)
     if not m:
-        raise checklib.Machinery("TLAPS did not prove ChunkProofs.tla:\n" + p.stdout[-1500:])
+        raise checklib.Machinery(f"TLAPS did not prove {module}.tla:\n" + p.stdout[-1500:])
     n = int(m.group(1))
     chk.cov["obligations"] = chk.cov.get("obligations", 0) + n
     chk.cov["discharged"] = chk.cov.get("discharged", 0) + n
-    chk.cov["checker_cmd"] = "tlapm --cleanfp spec/ChunkProofs.tla"
-    chk.note(f"TLAPS: all {n} obligations of ChunkProofs.tla proved (Cover, SumAll, SizesInRange, NormSame, RowInChunk for ALL n, rpc >= 1)")
-    chk.assumptions.append("unbounded chunk arithmetic: proved by TLAPS (ChunkProofs.tla), not only evaluated on TLC's grid")
+    chk.cov["checker_cmd"] = f"tlapm --cleanfp spec/{module}.tla"
+    chk.note(f"TLAPS: all {n} obligations of {module}.tla proved ({what})")
+    chk.assumptions.append(f"unbounded arithmetic: proved by TLAPS ({module}.tla), not only evaluated on TLC's finite family")
     return n
